@@ -74,6 +74,14 @@ func c14FaultyAtoms() []c14Atom {
 		{"1 > 'a'", 'B', "> on number and text"},
 		{"key ~= 1", 'B', "~= with a number operand"},
 		{"true > false", 'B', "ordering on Booleans"},
+		{"is_int(value) ^= true", 'B', "^= on Booleans"},
+		{"is_int(value) ~= is_float(value)", 'B', "~= on Booleans"},
+		{"true ^= (key = 'a')", 'B', "^= on Booleans"},
+		{"1 ^= 2", 'B', "^= on numbers"},
+		{"int(value) ~= strlen(key)", 'B', "~= on numbers"},
+		{"(key = 'a') <= is_int(value)", 'B', "ordering on Booleans"},
+		{"json(value) ^= json(value)", 'B', "^= on JSON"},
+		{"split(value, ',') != split(key, ',')", 'B', "!= on lists"},
 		{"!(1)", 'B', "! on a number"},
 		{"!(key)", 'B', "! on text"},
 		{"!(key ^= 1)", 'B', "fault under !"},
